@@ -325,10 +325,14 @@ Proof.
     pose proof (call_inv_facts (r_cfg r) (lookup r) (r_now r) (r_dealer r) s req opts proc args kw oracle Wd LOK NW) as CI.
     destruct (call _ _ _ _ _ _ _ _ _ _ _) as [d o|o|d1 callee' o] eqn:Ecall.
     + left. cbn [fst snd]. destruct CF as [C1 C2]. split; [now apply calm_dealer|apply (dq_noinv _ _ _ CI)].
-    + left. assert (Q : calm r o r) by (split; [apply evo_refl|split; [exact CF|reflexivity]]).
-      specialize (LvQ r o W Q). pose proof (leave_qstep r (s_id s)) as Lq.
-      destruct (leave r (s_id s)) as [r1 o1]. split; [exact LvQ|].
-      apply noinv_app; [exact CI|apply (qs_noinv _ _ _ Lq)].
+    + left.
+      destruct (call_abort_realm_wf r s req opts proc oracle k W I) as (Wa & _ & _). cbv zeta in Wa.
+      pose proof (call_abort_dealer_tables (lookup r) (r_dealer r) s req opts proc oracle) as (_ & Ei & _ & Et).
+      match goal with |- context [leave ?R (s_id s)] =>
+        assert (Q : calm r o R) by (split; [apply evo_same; [exact Ei|exact Et]|split; [exact CF|reflexivity]]);
+        specialize (LvQ R o Wa Q); pose proof (leave_qstep R (s_id s)) as Lq;
+        destruct (leave R (s_id s)) as [r1 o1] end.
+      split; [exact LvQ|]. apply noinv_app; [exact CI|apply (qs_noinv _ _ _ Lq)].
     + destruct CF as (y & i & rid & det & Eo & Ey & Kind).
       destruct (call_invoked_wf r s req opts proc args kw oracle k d1 callee' o W I Hk Hs Ecall)
         as (W2 & J2 & _ & (rcv & invid & regid & det' & Eo' & Hrcv) & Hcl).
